@@ -3,7 +3,8 @@ import BppProofs.Lemmas.NumDerivRaise
 C12 helper lemmas, part 13 (round 2): the remaining fall-back paths, end to end — five-point backward
 and forward one-sided formulas, two-point right-hand probe, halved-step retries of the two- and
 three-point schemes.  Situation: one selected variable, passed with a constraint (`qv`, precision 0)
-that refuses some probes; no constraint on the wrapped function's side, `|f| < VERY_BIG` (`FreeFn`).
+that refuses some probes; no constraint on the wrapped function's side (`FreeFn`), `|f| < VERY_BIG`
+at the base point and on the probed segments (`BoundedNear`; two- and three-point schemes only).
 -/
 namespace Bpp.NumDeriv
 open Bpp Bpp.Scalar
@@ -257,7 +258,8 @@ theorem retry_two_refused (f : List ℝ → ℝ) {params B : PList ℝ} (hF : Fr
     (value : ℝ) (fn : Fn ℝ) (q0 : Param ℝ) (rest : PList ℝ) (H : ℝ) (fv : Option ℝ)
     (hri : RI f params B var fn (q0 :: rest)) (hprec : q0.prec = 0) (hval : q0.value = value) (hH : 0 < H)
     (hrejL : q0.violates (value + -H) = true) (hrejR : q0.violates (value + H) = true)
-    (hacc : q0.violates (value + H / (-(ofInt 2))) = false) :
+    (hacc : q0.violates (value + H / (-(ofInt 2))) = false)
+    (hbx : tooBig (f (values (upd1 B var (value + H / (-(ofInt 2)))))) = false) :
     (retry f rp 10 fn (q0 :: rest) value (-H) fv).exc = none ∧
     (retry f rp 10 fn (q0 :: rest) value (-H) fv).hf = some (H / (-(ofInt 2))) ∧
     (retry f rp 10 fn (q0 :: rest) value (-H) fv).h = H / (-(ofInt 2)) ∧
@@ -277,14 +279,14 @@ theorem retry_two_refused (f : List ℝ → ℝ) {params B : PList ℝ} (hF : Fr
   have h2 : H / (-(ofInt 2)) ≠ 0 := by
     simp only [ScalarReal.ofInt_eq]; push_cast
     exact div_ne_zero (ne_of_gt hH) (by norm_num)
-  exact retry_ok f hF rp value 7 fn q0 rest (H / (-(ofInt 2))) fv hri hprec hacc h2
+  exact retry_ok f hF rp value 7 fn q0 rest (H / (-(ofInt 2))) fv hri hprec hacc h2 hbx
 
 
 /-- two-point scheme, right-hand probe: `x - H` refused, `x + H` accepted -/
 theorem step2_right (f : List ℝ → ℝ) {params B : PList ℝ} (hF : FreeFn f params B) {w0 : W ℝ} (lp : Loop ℝ)
     (hLI : LI f params B w0 (fun w => w.f1) lp) (i : Nat) (var : Name) (b qv : Param ℝ)
     (hqv : find? params var = some qv) (hb : find? B var = some b) (hlast : lp.lastVar ≠ some var) (hh : 0 < lp.w.h)
-    (hprec : qv.prec = 0)
+    (hprec : qv.prec = 0) (hB : BoundedNear f B lp.w.h)
     (hrej : qv.violates (b.value + -((one + Scalar.abs b.value) * lp.w.h)) = true)
     (hacc : qv.violates (b.value + (one + Scalar.abs b.value) * lp.w.h) = false) :
     (step2 f params lp i var).2 = none ∧ (step2 f params lp i var).1.lastVar = some var ∧
@@ -306,6 +308,7 @@ theorem step2_right (f : List ℝ → ℝ) {params B : PList ℝ} (hF : FreeFn f
     exact mul_pos this hh
   obtain ⟨a1, a2, a3, a4, a5, _, _⟩ := retry_flip f hF true b.value 8 lp.w.fn qv rest _ none hri hprec hqval
     (by linarith : -((one + Scalar.abs b.value) * lp.w.h) < 0) hrej (by rw [neg_neg]; exact hacc)
+    (hB.at' var b hb _ 1 (by simp) (by ring))
   rw [neg_neg] at a2 a3 a4 a5
   unfold step2
   have hnh : (!has params var) = false := by rw [hhas]; rfl
@@ -318,7 +321,7 @@ theorem step2_right (f : List ℝ → ℝ) {params B : PList ℝ} (hF : FreeFn f
 theorem step2_halved (f : List ℝ → ℝ) {params B : PList ℝ} (hF : FreeFn f params B) {w0 : W ℝ} (lp : Loop ℝ)
     (hLI : LI f params B w0 (fun w => w.f1) lp) (i : Nat) (var : Name) (b qv : Param ℝ)
     (hqv : find? params var = some qv) (hb : find? B var = some b) (hlast : lp.lastVar ≠ some var) (hh : 0 < lp.w.h)
-    (hprec : qv.prec = 0)
+    (hprec : qv.prec = 0) (hB : BoundedNear f B lp.w.h)
     (hrejL : qv.violates (b.value + -((one + Scalar.abs b.value) * lp.w.h)) = true)
     (hrejR : qv.violates (b.value + (one + Scalar.abs b.value) * lp.w.h) = true)
     (hacc : qv.violates (b.value + (one + Scalar.abs b.value) * lp.w.h / (-(ofInt 2))) = false) :
@@ -341,6 +344,8 @@ theorem step2_halved (f : List ℝ → ℝ) {params B : PList ℝ} (hF : FreeFn 
     exact mul_pos this hh
   obtain ⟨a1, a2, a3, a4, a5, _, _⟩ := retry_two_refused f hF true b.value lp.w.fn qv rest _ none hri hprec hqval hpos
     hrejL hrejR hacc
+    (hB.at' var b hb _ (-1 / 2) (by rw [abs_le]; constructor <;> norm_num)
+      (by simp only [ScalarReal.ofInt_eq]; push_cast; ring))
   unfold step2
   have hnh : (!has params var) = false := by rw [hhas]; rfl
   rw [hnh]
@@ -353,7 +358,7 @@ symmetric probes with half the step -/
 theorem step3_halved (f : List ℝ → ℝ) {params B : PList ℝ} (hF : FreeFn f params B) {w0 : W ℝ} (lp : Loop ℝ)
     (hLI : LI f params B w0 (fun w => w.f2) lp) (i : Nat) (var : Name) (b qv : Param ℝ)
     (hqv : find? params var = some qv) (hb : find? B var = some b) (hlast : lp.lastVar ≠ some var) (hh : 0 < lp.w.h)
-    (hprec : qv.prec = 0)
+    (hprec : qv.prec = 0) (hB : BoundedNear f B lp.w.h)
     (hrejL : qv.violates (b.value + -((one + Scalar.abs b.value) * lp.w.h)) = true)
     (hrejR : qv.violates (b.value + (one + Scalar.abs b.value) * lp.w.h) = true)
     (haccL : qv.violates (b.value + (one + Scalar.abs b.value) * lp.w.h / (-(ofInt 2))) = false)
@@ -382,6 +387,8 @@ theorem step3_halved (f : List ℝ → ℝ) {params B : PList ℝ} (hF : FreeFn 
     exact mul_pos this hh
   obtain ⟨a1, a2, a3, a4, a5, a6, a7⟩ := retry_two_refused f hF true b.value lp.w.fn qv rest _ none hri hprec hqval hpos
     hrejL hrejR haccL
+    (hB.at' var b hb _ (-1 / 2) (by rw [abs_le]; constructor <;> norm_num)
+      (by simp only [ScalarReal.ofInt_eq]; push_cast; ring))
   -- second loop
   have hhalf : (one + Scalar.abs b.value) * lp.w.h / (-(ofInt 2)) < 0 := by
     simp only [ScalarReal.ofInt_eq]; push_cast
@@ -397,6 +404,8 @@ theorem step3_halved (f : List ℝ → ℝ) {params B : PList ℝ} (hF : FreeFn 
     { qv with value := b.value + (one + Scalar.abs b.value) * lp.w.h / (-(ofInt 2)) } []
     (-((one + Scalar.abs b.value) * lp.w.h / (-(ofInt 2)))) none hri3 hprec
     (by rw [violates_value_irrel]; exact haccR) (neg_ne_zero.mpr (ne_of_lt hhalf))
+    (hB.at' var b hb _ (1 / 2) (by rw [abs_le]; constructor <;> norm_num)
+      (by simp only [ScalarReal.ofInt_eq]; push_cast; ring))
   unfold step3
   have hnh : (!has params var) = false := by rw [hhas]; rfl
   rw [hnh]
@@ -407,7 +416,8 @@ theorem step3_halved (f : List ℝ → ℝ) {params B : PList ℝ} (hF : FreeFn 
 /-- `updateDerivatives` of the two-point scheme for one selected variable: everything but the
 iteration itself -/
 theorem update2_single (f : List ℝ → ℝ) (w : W ℝ) (params : PList ℝ) (v : Name) (hown : Own w.fn) (hok : w.fn.OK f)
-    (hF : FreeFn f params w.fn.params) (hpnd : (names params).Nodup) (hc1 : w.c1 = true) (hvars : w.vars = [v]) :
+    (hF : FreeFn f params w.fn.params) (hb0 : tooBig (f (values w.fn.params)) = false)
+    (hpnd : (names params).Nodup) (hc1 : w.c1 = true) (hvars : w.vars = [v]) :
     ∃ fn1, fn1.fval = f (values w.fn.params) ∧
       LI f params w.fn.params { w with fn := fn1, f1 := fn1.fval } (fun w => w.f1)
         { w := { w with fn := fn1, f1 := fn1.fval }, p := [], lastVar := none } ∧
@@ -437,7 +447,7 @@ theorem update2_single (f : List ℝ → ℝ) (w : W ℝ) (params : PList ℝ) (
   have hcond : (w.c1 && decide (w.vars.length > 0)) = true := by simp [hc1, hvars]
   rw [if_pos hcond]
   simp only [hs1]
-  have htb : tooBig fn1.fval = false := by rw [hval]; exact hF.bounded _
+  have htb : tooBig fn1.fval = false := by rw [hval]; exact hb0
   rw [htb]
   simp only [Bool.false_eq_true, if_false]
   have hloop : loopGo (step2 f params) w.vars 0 { w := { w with fn := fn1, f1 := fn1.fval }, p := [], lastVar := none }
@@ -454,7 +464,8 @@ theorem update2_single (f : List ℝ → ℝ) (w : W ℝ) (params : PList ℝ) (
 
 /-- the same for the three-point scheme without cross derivatives -/
 theorem update3_single (f : List ℝ → ℝ) (w : W ℝ) (params : PList ℝ) (v : Name) (hown : Own w.fn) (hok : w.fn.OK f)
-    (hF : FreeFn f params w.fn.params) (hpnd : (names params).Nodup) (hc1 : w.c1 = true) (hcx : w.cx = false)
+    (hF : FreeFn f params w.fn.params) (hb0 : tooBig (f (values w.fn.params)) = false)
+    (hpnd : (names params).Nodup) (hc1 : w.c1 = true) (hcx : w.cx = false)
     (hvars : w.vars = [v]) :
     ∃ fn1, fn1.fval = f (values w.fn.params) ∧
       LI f params w.fn.params { w with fn := fn1, f2 := fn1.fval } (fun w => w.f2)
@@ -486,7 +497,7 @@ theorem update3_single (f : List ℝ → ℝ) (w : W ℝ) (params : PList ℝ) (
   have hcond : (w.c1 && decide (w.vars.length > 0)) = true := by simp [hc1, hvars]
   rw [if_pos hcond]
   simp only [hs1]
-  have htb : tooBig fn1.fval = false := by rw [hval]; exact hF.bounded _
+  have htb : tooBig fn1.fval = false := by rw [hval]; exact hb0
   rw [htb]
   simp only [Bool.false_eq_true, if_false]
   have hloop : loopGo (step3 f params) w.vars 0 { w := { w with fn := fn1, f2 := fn1.fval }, p := [], lastVar := none }
